@@ -194,3 +194,7 @@ RULES = [
 
 
 RULES.append(("C12.STATECELL", "the state that is threaded from line to line obeys the NaN rule of the stack cell (shared with C01.NAN): NaN is stored on a non-empty stack and never at the bottom of an empty one", p_c01.rule_nan))
+
+
+RULES.append(("C12.JUMP", "labels and the ♡ target work across lines: area evaluation, label lookup/registration and ♡ return of execute_one (shared with C01.JUMP)", p_c01.rule_area_jump))
+RULES.append(("C12.STEP", "each entered command is executed as the language defines it: six arms of execute_one (shared with C01.ARM)", p_c01.rule_arms))
